@@ -329,6 +329,8 @@ class LoopMixin:
     # ------------------------------------------------------------------ for loops
     def for_loop(self, st, it, env):
         domkind, dom = self.iter_domain(it)
+        if domkind == "sorted":
+            domkind, dom = "kset", dom.ks
         if domkind == "list":
             for x in dom:
                 self.assign(st.target, x, env)
